@@ -23,7 +23,7 @@ fn main() {
     mem::install_panic_hook();
     let _ = std::fs::create_dir_all(&cfg.out_dir);
     let t0 = std::time::Instant::now();
-    let oracle = pcv_core::checks::oracle_selfcheck(&cfg);
+    let oracle = if cfg!(miri) { Ok(pcv_core::json::J::s("performed by the native stage")) } else { pcv_core::checks::oracle_selfcheck(&cfg) };
     let mut rep = match cfg.prop.as_str() {
         "C15" | "C16" | "C19" if cfg.replay.is_some() => trees::replay(&cfg, &cfg.prop),
         "C17" | "C18" if cfg.replay.is_some() => dynm::replay(&cfg, &cfg.prop),
